@@ -91,7 +91,7 @@ impl Monitor for C05 {
         if tier == Tier::Sanitizer {
             vec!["arith_accept", "accepted"]
         } else {
-            vec!["arith_accept", "arith_reject", "accepted", "rejected_replay", "rejected_far_future", "rejected_bad_mic", "rejected_oversize", "accepted_classc", "mac_answered", "epoch_crossed", "exact_max_delivered"]
+            vec!["arith_accept", "arith_reject", "accepted", "rejected_replay", "rejected_far_future", "rejected_bad_mic", "rejected_oversize", "accepted_classc", "mac_answered", "epoch_crossed", "exact_max_delivered", "downlink_left_in_queue"]
         }
     }
     fn exhaustive(&self, _tier: Tier) -> bool {
@@ -320,6 +320,10 @@ fn session_case(idx: u64, rng: &mut Prng, col: &mut Collector) {
     let mut pending_devstatus: Option<(bool, String)> = None; // expectation for the next uplink
     let mut up_min = fcnt_up0;
     let mut history: Vec<String> = vec![];
+    // one application in three is lazy: it leaves delivered downlinks in the device's queue for a while
+    // (acceptance must not depend on that; the payload comparison waits until the queue was emptied)
+    let lazy_app = rng.chance(1, 3);
+    let mut untaken = 0usize;
     let mut t = 0usize;
     while t < nframes {
         t += 1;
@@ -500,9 +504,21 @@ fn session_case(idx: u64, rng: &mut Prng, col: &mut Collector) {
             );
             last = got_last; // resynchronise so one defect gives one witness per session
         }
+        if lazy_app && rng.bool() {
+            untaken += exp_payloads.len();
+            if untaken > 0 {
+                col.event("downlink_left_in_queue");
+            }
+            if matches!(resp, Resp::SessionExpired) {
+                break;
+            }
+            continue;
+        }
         let mut got_payloads = dev.take_downlinks();
         got_payloads.reverse(); // take_downlink pops the newest first
-        if got_payloads != exp_payloads {
+        let queue_was_clean = untaken == 0;
+        untaken = 0;
+        if queue_was_clean && got_payloads != exp_payloads {
             col.violation(
                 &format!("C05|session|payload-differs|{}|got={}|exp={}", sigc, got_payloads.len(), exp_payloads.len()),
                 "delivered application payloads differ from the reference plaintexts",
